@@ -25,6 +25,10 @@ type ReplayFile struct {
 	Trace      []string   `json:"trace"`
 	TraceHash  string     `json:"trace_hash"`
 	Note       string     `json:"note,omitempty"`
+	// Flaky is set when the violation did not reproduce on every re-execution of its own
+	// tape: the code under test is itself nondeterministic (e.g. it ranges over a map). The
+	// replay command then retries and accepts the same invariant without comparing traces.
+	Flaky bool `json:"flaky,omitempty"`
 }
 
 // WriteJSON writes v atomically enough for our purposes (temp + rename).
